@@ -571,6 +571,9 @@ let () =
                    Buffer.add_string detail (Printf.sprintf "  model: clone|%s|%s|%s\n" (ents_string s') (s_of_n s'.cur) (s_of_n s'.maxs)))
             | XDrop ->
               let evs = do_drop pre.st in
+              (match gstate_of pre with
+               | Some g0 -> chk "brefine" ((bB_drop { bg = g0; bcur = pre.st.cur; bmax = pre.st.maxs; btb = pre.st.tb }).e_dropped = evs.e_dropped)
+               | None -> ());
               chk "drops" (sorted_n evs.e_dropped = sorted_n post.dropped);
               chk "hashes_le" (Z.equal (z_of_n post.hashes) Z.zero)
             | XIntoIter (kind, pt, f) ->
@@ -578,6 +581,13 @@ let () =
               chk "res" (res_string ~kind o = post.res);
               chk "drops" (sorted_n evs.e_dropped = sorted_n post.dropped);
               chk "hashes_le" (Z.equal (z_of_n post.hashes) Z.zero);
+              (* B level: the extracted owning iterator (B/CloneB.v, proved to refine do_into_iter) run on the observed pointer graph *)
+              (match gstate_of pre with
+               | Some g0 ->
+                 (match bB_into_iter { bg = g0; bcur = pre.st.cur; bmax = pre.st.maxs; btb = pre.st.tb } (n_of_int kind) pt f with
+                  | None -> chk "bsim" false; Buffer.add_string detail "  layer B: the owning iterator FAULTS on the observed graph\n"
+                  | Some (o', evs') -> chk "brefine" (o' = o && evs'.e_dropped = evs.e_dropped))
+               | None -> ());
               (match o with OItems l ->
                  List.iter (function Some ((k : key), (v : val0)) ->
                      if kind <> 2 then Hashtbl.replace returned_ever (s_of_n k.ktok) ();
